@@ -32,10 +32,13 @@ def _install():
         def func2(f_, Ig, Ir, Ic, info_, cache_):
             ev.append(dict(ev='req', n=int(Ig.shape[0]), r1=1 if Ir is None else int(Ir.shape[0]), r2=1 if Ic is None else int(Ic.shape[0]),
                            m=int(info_['m']), mc=int(info_['m_cache']), stop=info_['stop'] or 'none'))
-            Z = (func or C._func)(f_, Ig, Ir, Ic, info_, cache_)
+            Z = (func or orig_func)(f_, Ig, Ir, Ic, info_, cache_)
             ev.append(dict(ev='reqdone', ok=Z is not None, m=int(info_['m']), mc=int(info_['m_cache']), stop=info_['stop'] or 'none'))
             return Z
-        orig_iter = C._iter
+        orig_iter = getattr(C, '_iter', None)
+        orig_func = getattr(C, '_func', None)
+        if orig_func is None and func is None:      # no seam left to record through: run unrecorded
+            return orig_cross(f, Y0, m, e, nswp, tau, dr_min, dr_max, tau0, k0, info, cache, I_vld, y_vld, e_vld, cb, func, m_cache_scale, log)
 
         def it(Z, Ig, I, *a, **k):
             G, R, Inew = orig_iter(Z, Ig, I, *a, **k)
@@ -51,11 +54,13 @@ def _install():
             ev.append(dict(ev='cb', nswp=int(info_['nswp']), m=int(info_['m']), mc=int(info_['m_cache']),
                            ranks=[int(x) for x in teneva.ranks(Y)], ret=bool(ret), ehit=hit(info_['e'], e), vhit=hit(info_['e_vld'], e_vld)))
             return True if ret else None
-        C._iter = it
+        if orig_iter is not None:
+            C._iter = it
         try:
             Y = orig_cross(f2, Y0, m, e, nswp, tau, dr_min, dr_max, tau0, k0, info, cache, I_vld, y_vld, e_vld, cb2, func2, m_cache_scale, log)
         finally:
-            C._iter = orig_iter
+            if orig_iter is not None:
+                C._iter = orig_iter
         stop = info['stop']
         ev.append(dict(ev='ret', stop=stop or 'none', m=int(info['m']), mc=int(info['m_cache']), nswp=int(info['nswp']),
                        ranks=[1] + [int(G.shape[2]) for G in Y], shape=[int(G.shape[1]) for G in Y],
@@ -63,13 +68,13 @@ def _install():
                        evld_ok=(stop != 'e_vld') or hit(info['e_vld'], e_vld)))
         TRACES['cross'].append(dict(cfg=dict(n=[int(G.shape[1]) for G in Y0], r0=[1] + [int(G.shape[2]) for G in Y0], drmin=int(dr_min), drmax=int(dr_max),
                                              nswp=-1 if nswp is None else int(nswp), mmax=-1 if not m else int(m), cache=cache is not None,
-                                             mcs=int(m_cache_scale), hasE=e is not None, hasV=e_vld is not None), ev=ev))
+                                             mcs=int(m_cache_scale), hasE=e is not None, hasV=e_vld is not None), ev=ev, noiter=orig_iter is None))
         return Y
     teneva.cross = cross
     orig_als = teneva.als
 
     def als(I_trn, y_trn, Y0, nswp=50, e=1.E-16, info=None, *, I_vld=None, y_vld=None, e_vld=None, r=None, lamb=0.001, w=None, cb=None, **kw):
-        if r is not None or kw or lamb is None:
+        if r is not None or kw or lamb is None or not hasattr(importlib.import_module('teneva.als'), '_optimize_core'):
             return orig_als(I_trn, y_trn, Y0, nswp, e, {} if info is None else info, I_vld=I_vld, y_vld=y_vld, e_vld=e_vld, r=r, lamb=lamb, w=w, cb=cb, **kw)
         from harness import c07
         vld = (np.asarray(I_vld), np.asarray(y_vld, dtype=float)) if I_vld is not None and y_vld is not None else None
